@@ -541,15 +541,19 @@ theorem tester_zero_length_read_observation :
 `CEv`: `query_decks`, `DeckMemory.read`, `DeckMemory.write` (each with or without its optional failure callback),
 and ANY `Memory` event with the manager subscribed (`mem`: arbitrary received packets - so success, an error status on
 any chunk, duplicates, stale and forged replies -, the disconnect handler, requests on other memories).
-`CEv.Adm dv c`: the domain of the property plus, for each of the defects of the CURRENT code, the exact side
-condition that avoids it; for `DeckVariant.fixed` these side conditions are vacuous.  `DeckVariant.code` is what Tie A
-finds in the source; today it is `deckCurrent` (see `gen_deck_variant`). -/
+`CEv.Dom c`: the domain of the property (well-formed request; the info section is only read by `query_decks`; requests
+on the manager's memory go through the manager).  `CEv.Adm dv c`: `Dom` plus, for each defect of the code BEFORE the
+repairs D61-D63, the exact side condition that avoids it; for `DeckVariant.fixed` - which is what Tie A finds in the
+source (`gen_deck_variant`) - `Adm` = `Dom`.  The `*_any_variant` theorems are the parametric versions. -/
 
-/-- the clearing / notifying discipline of the current source (`_new_data_failed` does not report a failed query,
-`_write_failed` calls `None`, the result of `mem_handler.read` is ignored; the read record IS always cleared) -/
+/-- the clearing / notifying discipline of the code before the repairs D61-D63 (`_new_data_failed` does not report a
+failed query, `_write_failed` calls `None`, the result of `mem_handler.read` is ignored; the read record IS always
+cleared): kept for the counterexample theorems -/
 def deckCurrent : DeckVariant := ⟨false, false, false, true⟩
 
-theorem gen_deck_variant : DeckVariant.code = deckCurrent := by decide
+/-- the source has the repaired discipline (fix commits D61, D62, D63): the property theorems below are about
+`DeckVariant.fixed`, for which `CEv.Adm` is nothing but the domain of the property (`CEv.Dom`) -/
+theorem gen_deck_variant : DeckVariant.code = DeckVariant.fixed := by decide
 
 theorem gen_deck_constants : Gen.C06.deckInfoAddr = 0 ∧ Gen.C06.deckInfoSize = 257 ∧ Gen.C06.deckSupportedVersion = 3 ∧
     Gen.C06.deckMinInfoLen ≤ Gen.C06.deckInfoSize ∧ Gen.C06.deckParseHeadFmt = "<BB" := by decide
@@ -561,12 +565,14 @@ theorem gen_deck_records :
       "if self._query_complete_cb is not None:", "  raise Exception('Query ongoing')", "self._error = None",
       "self.deck_memories = {}", "self._query_complete_cb = query_complete_cb",
       "self._query_failed_cb = query_failed_cb",
-      "self.mem_handler.read(self, self.INFO_SECTION_ADDRESS, self.SIZE_OF_INFO_SECTION)"] ∧
+      "if not self.mem_handler.read(self, self.INFO_SECTION_ADDRESS, self.SIZE_OF_INFO_SECTION):",
+      "  self._clear_query_cb()", "  raise Exception('Read operation ongoing')"] ∧
     Gen.C06.deckReadBody = [
       "if self._read_complete_cb is not None:", "  raise Exception('Read operation ongoing')",
       "self._read_base_address = base_address", "self._read_complete_cb = read_complete_cb",
       "self._read_failed_cb = read_failed_cb", "mapped_address = address + self._read_base_address",
-      "self.mem_handler.read(self, mapped_address, length)"] ∧
+      "if not self.mem_handler.read(self, mapped_address, length):", "  self._clear_read_cb()",
+      "  raise Exception('Read operation ongoing')"] ∧
     Gen.C06.deckWriteBody = [
       "if self._write_complete_cb is not None:", "  raise Exception('Write operation ongoing')",
       "self._write_complete_cb = complete_cb", "self._write_failed_cb = failed_cb",
@@ -580,15 +586,16 @@ theorem gen_deck_records :
       "        tmp_cb(str(e))", "  else:", "    tmp_cb = self._read_complete_cb", "    self._clear_read_cb()",
       "    tmp_cb(addr - self._read_base_address, data)"] ∧
     Gen.C06.deckNewDataFailedBody = [
-      "if mem.id == self.id:", "  if addr == self.INFO_SECTION_ADDRESS:", "    self._clear_query_cb()",
-      "  else:", "    tmp_cb = self._read_failed_cb", "    self._clear_read_cb()",
-      "    if tmp_cb is not None:", "      tmp_cb(addr - self._read_base_address)", "    else:"] ∧
+      "if mem.id == self.id:", "  if addr == self.INFO_SECTION_ADDRESS:", "    tmp_cb = self._query_failed_cb",
+      "    self._clear_query_cb()", "    if tmp_cb:", "      tmp_cb('Deck memory query failed')", "  else:",
+      "    tmp_cb = self._read_failed_cb", "    self._clear_read_cb()", "    if tmp_cb is not None:",
+      "      tmp_cb(addr - self._read_base_address)", "    else:"] ∧
     Gen.C06.deckWriteDoneBody = [
       "if mem.id == self.id:", "  tmp_cb = self._write_complete_cb", "  self._clear_write_cb()",
       "  tmp_cb(addr - self._read_base_address)"] ∧
     Gen.C06.deckWriteFailedBody = [
       "if mem.id == self.id:", "  tmp_cb = self._write_failed_cb", "  self._clear_write_cb()",
-      "  tmp_cb(addr - self._read_base_address)"] ∧
+      "  if tmp_cb is not None:", "    tmp_cb(addr - self._read_base_address)"] ∧
     Gen.C06.deckClearQueryCbBody = [
       "self._query_complete_cb = None", "self._query_failed_cb = None"] ∧
     Gen.C06.deckClearReadCbBody = [
@@ -606,7 +613,7 @@ for each kind (0 query, 1 read, 2 write), the requests closed by a callback (or 
 callback had been supplied: ghost `DOut.silent`), in order, followed by the request still recorded, are EXACTLY the
 requests the manager accepted, in order.  Nothing closed twice, nothing lost, nothing invented.
 (`partial` for the current code only through `CEv.Adm`; at full strength for `DeckVariant.fixed`.) -/
-theorem deck_exactly_one (dv : DeckVariant) (id : Nat) (evs : List CEv) (ha : CAdm dv ⟨St.init, Deck.new id⟩ evs) (kind : Nat) :
+theorem deck_exactly_one_any_variant (dv : DeckVariant) (id : Nat) (evs : List CEv) (ha : CAdm dv ⟨St.init, Deck.new id⟩ evs) (kind : Nat) :
     closed kind (crun dv ⟨St.init, Deck.new id⟩ evs).2 ++ (crun dv ⟨St.init, Deck.new id⟩ evs).1.d.pending kind =
       acceptedAll dv kind ⟨St.init, Deck.new id⟩ evs := by
   have := (crun_inv evs (CInv.init dv id) ha).2 kind
@@ -616,7 +623,7 @@ theorem deck_exactly_one (dv : DeckVariant) (id : Nat) (evs : List CEv) (ha : CA
 `Memory`'s: a query / read record exists only while `Memory` has a read of that memory recorded, the write record
 only while `Memory` has that write queued - and by the theorems above `Memory`'s records disappear with the
 notification, on an error status, and on disconnect. -/
-theorem deck_records_follow_memory (dv : DeckVariant) (id : Nat) (evs : List CEv) (ha : CAdm dv ⟨St.init, Deck.new id⟩ evs) :
+theorem deck_records_follow_memory_any_variant (dv : DeckVariant) (id : Nat) (evs : List CEv) (ha : CAdm dv ⟨St.init, Deck.new id⟩ evs) :
     let c := (crun dv ⟨St.init, Deck.new id⟩ evs).1
     (dget? c.s.reads c.d.id = none → c.d.query = none ∧ c.d.read = none) ∧
     (c.s.queue c.d.id = [] → c.d.write = none) := by
@@ -630,7 +637,7 @@ theorem deck_records_follow_memory (dv : DeckVariant) (id : Nat) (evs : List CEv
 /-- **Afterwards further requests are still served**: after every admissible history, as soon as `Memory` has no
 read recorded for the manager's memory, a deck read (and a query) is ACCEPTED - it returns, is recorded and its
 first chunk request goes out; likewise a deck write as soon as nothing is queued. -/
-theorem deck_next_request_accepted (dv : DeckVariant) (id : Nat) (evs : List CEv) (ha : CAdm dv ⟨St.init, Deck.new id⟩ evs)
+theorem deck_next_request_accepted_any_variant (dv : DeckVariant) (id : Nat) (evs : List CEv) (ha : CAdm dv ⟨St.init, Deck.new id⟩ evs)
     (tag base address len rid : Nat) (hf : Bool) :
     let c := (crun dv ⟨St.init, Deck.new id⟩ evs).1
     (dget? c.s.reads c.d.id = none → (Ev.read tag c.d.id (address + base) len).WF →
@@ -669,7 +676,7 @@ theorem deck_write_accepted_of_inv {dv : DeckVariant} {c : CSt} (h : CInv dv c)
   simp [cstep, deckWrite, hw, hm]
 
 /-- ... and a deck write is accepted and started as soon as no write of that memory is queued -/
-theorem deck_next_write_accepted (dv : DeckVariant) (id : Nat) (evs : List CEv) (ha : CAdm dv ⟨St.init, Deck.new id⟩ evs)
+theorem deck_next_write_accepted_any_variant (dv : DeckVariant) (id : Nat) (evs : List CEv) (ha : CAdm dv ⟨St.init, Deck.new id⟩ evs)
     (tag base address : Nat) (data : List UInt8) (rid : Nat) (hf p : Bool)
     (hq : (crun dv ⟨St.init, Deck.new id⟩ evs).1.s.queue (crun dv ⟨St.init, Deck.new id⟩ evs).1.d.id = [])
     (hwf : (Ev.write tag (crun dv ⟨St.init, Deck.new id⟩ evs).1.d.id (address + base) data true p).WF) :
@@ -678,7 +685,51 @@ theorem deck_next_write_accepted (dv : DeckVariant) (id : Nat) (evs : List CEv) 
   let h := deck_write_accepted_of_inv (crun_inv evs (CInv.init dv id) ha).1 tag base address data rid hf p hq hwf
   ⟨h.1, h.2.1⟩
 
-/-! ### the defects of the current code at this layer (each side condition of `CEv.Adm` is necessary) -/
+/-! ### the property theorems for the repaired code: no side conditions beyond the domain -/
+
+/-- **Exactly one notification - or silent completion - per accepted request**, over ALL histories in the domain:
+requests with and without each optional callback, overlapping requests (refused with an exception), any received
+packets (success, error status on any chunk, duplicates, stale, forged, malformed), disconnect anywhere. -/
+theorem deck_exactly_one (id : Nat) (evs : List CEv) (h : CDom ⟨St.init, Deck.new id⟩ evs) (kind : Nat) :
+    closed kind (crun DeckVariant.fixed ⟨St.init, Deck.new id⟩ evs).2 ++
+      (crun DeckVariant.fixed ⟨St.init, Deck.new id⟩ evs).1.d.pending kind =
+      acceptedAll DeckVariant.fixed kind ⟨St.init, Deck.new id⟩ evs :=
+  deck_exactly_one_any_variant _ id evs (CAdm_fixed_of_dom evs _ h) kind
+
+/-- **No pending-request record is left behind** -/
+theorem deck_records_follow_memory (id : Nat) (evs : List CEv) (h : CDom ⟨St.init, Deck.new id⟩ evs) :
+    let c := (crun DeckVariant.fixed ⟨St.init, Deck.new id⟩ evs).1
+    (dget? c.s.reads c.d.id = none → c.d.query = none ∧ c.d.read = none) ∧
+    (c.s.queue c.d.id = [] → c.d.write = none) :=
+  deck_records_follow_memory_any_variant _ id evs (CAdm_fixed_of_dom evs _ h)
+
+/-- **Afterwards further requests are still served** (reads and queries) -/
+theorem deck_next_request_accepted (id : Nat) (evs : List CEv) (h : CDom ⟨St.init, Deck.new id⟩ evs)
+    (tag base address len rid : Nat) (hf : Bool) :
+    let c := (crun DeckVariant.fixed ⟨St.init, Deck.new id⟩ evs).1
+    (dget? c.s.reads c.d.id = none → (Ev.read tag c.d.id (address + base) len).WF →
+      (cstep DeckVariant.fixed c (.dread tag base address len rid hf)).res = .ret none ∧
+      (cstep DeckVariant.fixed c (.dread tag base address len rid hf)).c.d.read = some ⟨rid, hf⟩ ∧
+      (cstep DeckVariant.fixed c (.dread tag base address len rid hf)).outs =
+        [.send Gen.C06.chanRead (readReqBytes c.d.id (address + base) (rdLen len))]) ∧
+    (dget? c.s.reads c.d.id = none → (Ev.read tag c.d.id Gen.C06.deckInfoAddr Gen.C06.deckInfoSize).WF →
+      (cstep DeckVariant.fixed c (.query tag rid hf)).res = .ret none ∧
+      (cstep DeckVariant.fixed c (.query tag rid hf)).c.d.query = some ⟨rid, hf⟩) :=
+  deck_next_request_accepted_any_variant _ id evs (CAdm_fixed_of_dom evs _ h) tag base address len rid hf
+
+/-- **Afterwards further requests are still served** (writes) -/
+theorem deck_next_write_accepted (id : Nat) (evs : List CEv) (h : CDom ⟨St.init, Deck.new id⟩ evs)
+    (tag base address : Nat) (data : List UInt8) (rid : Nat) (hf p : Bool)
+    (hq : (crun DeckVariant.fixed ⟨St.init, Deck.new id⟩ evs).1.s.queue
+      (crun DeckVariant.fixed ⟨St.init, Deck.new id⟩ evs).1.d.id = [])
+    (hwf : (Ev.write tag (crun DeckVariant.fixed ⟨St.init, Deck.new id⟩ evs).1.d.id (address + base) data true p).WF) :
+    (cstep DeckVariant.fixed (crun DeckVariant.fixed ⟨St.init, Deck.new id⟩ evs).1
+      (.dwrite tag base address data rid hf p)).res = .ret none ∧
+    (cstep DeckVariant.fixed (crun DeckVariant.fixed ⟨St.init, Deck.new id⟩ evs).1
+      (.dwrite tag base address data rid hf p)).c.d.write = some ⟨rid, hf⟩ :=
+  deck_next_write_accepted_any_variant _ id evs (CAdm_fixed_of_dom evs _ h) tag base address data rid hf p hq hwf
+
+/-! ### the defects of the code before the repairs D61-D63 (each side condition of `CEv.Adm` is necessary) -/
 
 /-- D61: a failed `query_decks` (error status on the info-section read; likewise a link drop) is reported to
 nobody: `query_failed_cb` was supplied and is never called (`SyncDeckMemoryManager.query_decks` waits forever) -/
@@ -748,7 +799,7 @@ example : notesW 0 (runSys Variant.fixed (Sys.init [List.replicate 60 0] [])
 example : ∀ a ∈ [Act.write 1 0 5 [1, 2] false true, .read 3 0 0 4, .deliver 0 true, .drop], a.OkForWrite := by
   simp [Act.OkForWrite, Act.WF, Ev.WF]
 
-/-- an admissible history for the CURRENT code: a deck read with failure callback that fails on an error status,
+/-- an admissible history for the code before the repairs: a deck read with failure callback that fails on an error status,
 a deck write with failure callback, a link drop, a further read -/
 example : CAdm deckCurrent ⟨St.init, Deck.new 5⟩
     [.dread 800 300 0 4 1 true, .mem (.pkt 1 [5, 44, 1, 0, 0, 7]), .dwrite 800 300 0 [1] 2 true false,
@@ -756,8 +807,8 @@ example : CAdm deckCurrent ⟨St.init, Deck.new 5⟩
 example : (crun deckCurrent ⟨St.init, Deck.new 5⟩
     [.dread 800 300 0 4 1 true, .mem (.pkt 1 [5, 44, 1, 0, 0, 7]), .dwrite 800 300 0 [1] 2 true false,
      .mem .disconnect, .dread 800 300 0 4 3 true]).2 = [.readFailed 1 0, .writeFailed 2 0] := by decide
-/-- for the repaired variant every well-formed request is admissible, also without failure callbacks and overlapping -/
-example : CAdm DeckVariant.fixed ⟨St.init, Deck.new 5⟩
+/-- in the domain of the repaired code: requests without failure callbacks, overlapping requests, a disconnect -/
+example : CDom ⟨St.init, Deck.new 5⟩
     [.query 800 1 true, .dread 800 300 0 4 2 false, .dwrite 800 300 0 [1] 3 false false, .mem .disconnect] := by decide
 
 example : (run Variant.fixed St.init d9Witness).2 = [.send 2 [0, 0, 0, 0, 0, 0x2a], .writeOk 1 0 0] := by decide
